@@ -30,6 +30,7 @@ import ast
 from sa.core import rule, AnalysisError
 from sa.pyindex import get_module, dotted, src, calls_in, walk_no_nested
 from sa import flow
+from rules import _util_c16c19 as U
 
 DIR = "pytype/directors/directors.py"
 PAR = "pytype/directors/parser.py"
@@ -86,9 +87,12 @@ def _monotonic_requirement(dmod):
   r, last = found[0]
   defs = [n.value for n in walk_no_nested(fn) if isinstance(n, ast.Assign)
           and dotted(n.targets[0]) == last]
-  if not (len(defs) == 1 and "self._transitions[-1]" in src(defs[0])):
+  # once-bound local aliases of the list (`transitions = self._transitions`)
+  # denote the same object: read through them
+  resolved = [src(U.resolve_aliases(fn, d)) for d in defs]
+  if not (len(defs) == 1 and "self._transitions[-1]" in resolved[0]):
     raise AnalysisError(f"_LineSet.start_range: `{last}` is not the last transition: "
-                        f"{[src(d) for d in defs]}")
+                        f"{resolved}")
   return fn, line, r
 
 
